@@ -26,13 +26,14 @@ enum {
   F_PRIO,
   F_PIA,
   F_DELAY,
+  F_WIDE,
   F_PSEED,
   F_COUNT
 };
 const std::vector<const char*> FIELDS = {
     VERIF_SCHED_FIELDS, "wl",    "topo",  "threads", "conflicts", "ninit",
     "fanout",           "depth", "nobj",  "maxnh",   "vaborts",   "prio",
-    "pia",              "delay", "pseed"};
+    "pia",              "delay", "wide", "pseed"};
 
 static const char* TOPOS[]      = {"1",     "2",   "4",  "2,2",  "3,1", "1,1,1,1",
                                    "2,1,1", "4,4", "8",  "3,3,2", "1,3"};
@@ -97,9 +98,10 @@ Case generate() {
   c[F_NOBJ]   = *gen::weightedElement<int>({{3, 1}, {3, 2}, {3, 3}, {2, 5}, {2, 8}, {1, 16}});
   c[F_MAXNH]  = mode == 2 ? *uni(1, fe::MAXNH + 1) : *uni(0, fe::MAXNH + 1);
   c[F_VABORTS] = *uni(0, 2);
-  c[F_PRIO]    = *uni(0, 3);
+  c[F_PRIO]    = *uni(0, 4);
   c[F_PIA]     = *uni(0, 2);
   c[F_DELAY]   = *uni(0, 4);
+  c[F_WIDE]    = mode == 8 ? *uni(0, 2) : *gen::weightedElement<int>({{3, 0}, {1, 1}});
   c[F_PSEED]   = *uni(0, 1 << 24);
   return c;
 }
@@ -136,6 +138,7 @@ void run(const Case& c) {
   P.prio_mode   = (int)c[F_PRIO];
   P.pia         = (int)c[F_PIA];
   P.delay       = (int)c[F_DELAY];
+  P.wide        = (int)c[F_WIDE];
   int wl        = (int)c[F_WL];
   fe::adjust_program_for_worklist(wl, P);
   {
@@ -181,6 +184,7 @@ void run(const Case& c) {
   label("aborts", aborts > 5 ? 5 : aborts);
   label("threads_used", nthreads_used);
   label("strategy", c[S_STRATEGY]);
+  label("wide", P.wide);
   bool nt1 = nthreads_used >= 2 && pushes >= 1 && (aborts >= 1 || B.cross_thread >= 1);
   bool nt2 = w.conflict_aborts_seen >= 1 && B.shared_obj_commits >= 1;
   label("nt_c01", nt1);
@@ -190,7 +194,7 @@ void run(const Case& c) {
   if (w.level_mode) {
     std::map<uint32_t, unsigned> lvl_threads;
     for (size_t i = 0; i < B.items.size(); ++i) {
-      uint32_t lv = w.level_mode == 1 ? B.items[i].depth : B.items[i].prio;
+      uint32_t lv = w.level_mode == 1 ? B.items[i].depth : B.items[i].rank;
       lvl_threads[lv] |= 1u << B.exec_thread[i];
     }
     bool shared = false;
@@ -279,8 +283,7 @@ void post_loop_checks(World& w) {
     for (size_t x = 0; x < n; ++x) {
       uint64_t s = B.start_clock[x];
       for (size_t y = 0; y < n; ++y) {
-        bool more_urgent = P.descending ? B.items[y].prio > B.items[x].prio
-                                        : B.items[y].prio < B.items[x].prio;
+        bool more_urgent = B.items[y].rank < B.items[x].rank;
         if (!more_urgent)
           continue;
         uint64_t exists_at = B.parent[y] < 0 ? 0 : B.end_clock[B.parent[y]];
